@@ -6,12 +6,11 @@ Con(dd) == <<"construct", dd>>
 \* C12: one thread, one encode of each pool document
 Progs1 == {[t \in {"A"} |-> <<Enc(dd)>>] : dd \in DocIds \ {"fail"}}
 \* C14: one thread, every history of at most MaxHist operations followed by the target encode
-HistOps == {Enc(dd) : dd \in DocIds} \cup {Con(dd) : dd \in {"share2", "share3"}}
+HistOps == {Enc(dd) : dd \in DocIds} \cup {Con(dd) : dd \in {x \in DocIds : SharesBody(x)}}
 Targets == DocIds \ {"fail"}
 Hists(n) == UNION {[1..m -> HistOps] : m \in 0..n}
-ProgsHist1 == {[t \in {"A"} |-> hs \o <<Enc(tg)>>] : hs \in Hists(1), tg \in Targets}
-ProgsHist2 == {[t \in {"A"} |-> hs \o <<Enc(tg)>>] : hs \in Hists(2), tg \in Targets}
-ProgsHist3 == {[t \in {"A"} |-> hs \o <<Enc(tg)>>] : hs \in Hists(3), tg \in Targets}
+\* (an operator with a parameter: TLC evaluates zero-arity definitions eagerly, and Hists(3) has |HistOps|^3 elements)
+ProgsHist(n) == {[t \in {"A"} |-> hs \o <<Enc(tg)>>] : hs \in Hists(n), tg \in Targets}
 \* C15: two / three threads, one encode each
 Conc == {"colA", "colB", "multi", "fig", "plain"}
 Progs2 == {[t \in {"A", "B"} |-> IF t = "A" THEN <<Enc(a)>> ELSE <<Enc(b)>>] : a \in Conc, b \in Conc}
